@@ -366,6 +366,11 @@ func (g *FuncGen) assumeWellTyped(v Val, t types.Type, st *State) {
 			lo, hi := intRange(ii)
 			g.c.assert(implies(guard, fmt.Sprintf("(and (<= %s %s) (<= %s %s))", lo, v.T, v.T, hi)))
 		}
+		if u.Info()&types.IsString != 0 && g.c.mathInts {
+			// strings are shorter than 2^40 bytes (assumption, listed): lengths then never overflow int arithmetic
+			g.c.assert(implies(guard, fmt.Sprintf("(<= (str.len %s) 1099511627776)", v.T)))
+			g.c.note("strings are assumed shorter than 2^40 bytes (mathint functions)")
+		}
 	case *types.Pointer, *types.Map, *types.Chan, *types.Signature:
 		g.c.assert(implies(guard, fmt.Sprintf("(and (<= %s %s) (<= 0 (root %s)) (<= (root %s) %s) (=> (> %s 0) (= (root %s) %s)))", v.T, st.hwm, v.T, v.T, st.hwm, v.T, v.T, v.T)))
 		g.c.root("0")
